@@ -94,10 +94,18 @@ def strandedAmt (d : Denom) (c : Contract) : Nat :=
   if c.state == .completed && c.to == escrow && !(c.transfer && c.direction == .outgoing)
   then coinAmt c.amount d else 0
 
+/-- Σ over completed contracts that paid into the escrow itself -/
+def strandedSum (s : State) (d : Denom) : Nat := AMap.sumBy (strandedAmt d) s.htlcs
+
+/-- the escrow identity as the code really maintains it: escrow = open contracts + the amounts
+stranded by completed contracts whose recipient was the escrow account itself -/
+def EscrowExact (s : State) : Prop :=
+  ∀ d, Bank.balOf s.bank escrow d = openEscrow s d + strandedSum s d
+
 /-- the identity up to exactly the self-recipient amounts (class F-htlc-self-recipient) -/
 def escrowEqModSelfB (s : State) : Bool :=
   (denomsOf s).all fun d =>
-    Bank.balOf s.bank escrow d == openEscrow s d + AMap.sumBy (strandedAmt d) s.htlcs
+    Bank.balOf s.bank escrow d == openEscrow s d + strandedSum s d
 
 def countersB (s : State) : Bool :=
   (denomsOf s).all fun d =>
